@@ -11,10 +11,10 @@ Definition SP : N := 32.
 Definition is_skk_kana (c : N) : bool := in_class skk_kana_class c.
 Definition is_skk_alpha (c : N) : bool := in_class skk_alpha_class c.
 Definition is_skk_space (c : N) : bool := in_class skk_space_class c.
-Definition is_word_char (c : N) : bool := negb (N.eqb c SP || N.eqb c SL || N.eqb c SC).
+Definition is_word_char (c : N) : bool := negb (N.eqb c SP || N.eqb c 9 || N.eqb c SL || N.eqb c SC).
 Definition is_annot_char (c : N) : bool := negb (N.eqb c SL).
 
-(** rule kanji() = $([^ ' ' '/' ';']+) annotation()? "/"   with annotation() = ";" [^ '/']* *)
+(** rule kanji() = $([^ ' ' '\t' '/' ';']+) annotation()? "/"   with annotation() = ";" [^ '/']* *)
 Definition parse_kanji (s : str) : option (str * str) :=
   match take_while is_word_char s with
   | ([], _) => None
